@@ -135,6 +135,9 @@ impl DataChunk {
     }
 
     pub fn from_rows(rows: &[RowRef<'_>], chunk: &Self) -> Self {
+        if chunk.column_count() == 0 {
+            return Self::no_column(rows.len());
+        }
         let mut arrays = vec![];
         for col_idx in 0..chunk.column_count() {
             let mut builder = ArrayBuilderImpl::from_type_of_array(chunk.array_at(col_idx));
@@ -149,6 +152,9 @@ impl DataChunk {
     /// Concatenate two chunks in rows.
     pub fn row_concat(self, other: Self) -> Self {
         assert_eq!(self.cardinality(), other.cardinality());
+        if self.arrays.is_empty() && other.arrays.is_empty() {
+            return Self::no_column(self.cardinality());
+        }
         self.arrays
             .iter()
             .chain(other.arrays.iter())
